@@ -91,6 +91,9 @@ def gen_case(rng, k, consts):
         r2 = random.Random(k * 7919 + 13)
         if c["N"] >= 3 and r2.random() < 0.5:
             c["history"] = r2.randint(1, min(3, c["N"]))      # the count is the simulation's own, after accepted insertions through the real driver
+        r3 = random.Random(k * 104729 + 7)
+        if r3.random() < 0.5:
+            c["mass_factor"] = r3.choice([2.0, 0.75, 1.5, 3.0])   # an isotope / coarse-grained bead: the exchange species carries its own masses (D2, 3He, 13CO2)
     return c
 
 
@@ -127,7 +130,7 @@ def ln_A(c, consts, seen=None):
         return x
     if c["crit"] == "gc":
         d, N = c["delta"], c["N"]
-        m = D(s.get("mass", MASS[c["species"]]))
+        m = D(s.get("mass", MASS[c["species"]] * c.get("mass_factor", 1.0)))
         pi = D("3.14159265358979323846264338327950288419716939937510582097494")
         lam = (D(consts["hplanck"]) ** 2 / (2 * pi * m * kB * T / D(consts["Nav"]) * D("0.001") * D(consts["e"]))).sqrt() * D(10**10)
         fact = Decimal(1)
@@ -211,13 +214,60 @@ def run(res: C.Result):
         else:
             a = float(la.exp())
             c["u"] = min(max(a * (1 + side * c["rel"]), 0.0), 1 - 2**-53)
-    outs = C.run_impl_parallel("c02.py", [{"cases": cases[i::16]} for i in range(16)])
-    results = [None] * ncases
+    # the rule as the driver applies it (reference state = where the run started, after whatever the user did to the box, or the last accepted trial)
+    r7 = random.Random(res.seed ^ 0xD21)
+    drv = []
+    for k in range(12 if res.tier == "quick" else 150):
+        L = r7.choice([5.0, 5.5, 6.0])
+        segs = [{"steps": r7.randint(3, 6), "scale": r7.choice([None, 0.9375, 1.0625, 0.875, 1.125])}]
+        if k % 2:
+            segs.append({"steps": r7.randint(3, 6), "scale": r7.choice([0.9375, 1.0625, 1.125]), "shift": [0.25, 0.0, -0.125] if k % 4 == 1 else None})
+        drv.append({"crit": "drv_iso" if k % 3 else "drv_tens", "natoms": r7.choice([2, 3, 5]), "cell": (np.eye(3) * L).tolist(), "T": r7.choice([1500.0, 3000.0]),
+                    "P": r7.choice([0.03125, 0.0625, 0.015625]), "seed": r7.randint(0, 10**6), "segments": segs})
+    outs = C.run_impl_parallel("c02.py", [{"cases": (cases + drv)[i::16]} for i in range(16)])
+    results = [None] * (ncases + len(drv))
     for j, o in enumerate(outs):
         results[j::16] = o["results"]
+    drv_results, results = results[ncases:], results[:ncases]
+    ndrv = {"trials": 0, "after_user_rescale": 0, "flagged": 0}
+    for c, r in zip(drv, drv_results):
+        if "exception" in r:
+            res.fail("driver:exception", f"{r['exception']}: {r['message']}", {"input": c, "observed": r})
+            continue
+        kT = D(consts["kB"]) * D(c["T"])
+        for si, run_ in enumerate(r["runs"]):
+            E_ref, V_ref = D(run_["start"]["E"]), D(run_["start"]["V"])
+            for ti, t in enumerate(run_["trials"]):
+                ndrv["trials"] += 1
+                ndrv["after_user_rescale"] += bool(c["segments"][si].get("scale")) and ti == 0
+                E2, V2 = D(t["E_new"]), D(t["V_new"])
+                if t["move"] == "c":
+                    la = -((E2 - E_ref) + D(c["P"]) * (V2 - V_ref)) / kT + (D(t["natoms"]) + 1) * (V2 / V_ref).ln()
+                else:
+                    la = -(E2 - E_ref) / kT          # (the volume did not change; for the isotension criteria the strain is zero too)
+                    if abs(V2 - V_ref) > D("1e-9") * V_ref:
+                        la = None
+                u = D(t["u"])
+                if la is None:
+                    exp_ = None
+                elif la >= 0:
+                    exp_ = True
+                else:
+                    a = la.exp()
+                    exp_ = None if abs(u - a) <= a * D("1e-6") else bool(u < a)
+                if exp_ is not None and exp_ != t["verdict"]:
+                    ndrv["flagged"] += 1
+                    res.fail(f"{c['crit'][4:]}:driver:verdict-not-textbook",
+                             f"{t['criteria_class']} on a {'cell' if t['move'] == 'c' else 'displacement'} trial, run {si + 1} trial {ti + 1}: reference state E={float(E_ref):.6f}, V={float(V_ref):.4f} "
+                             f"(where the run started{' after the user rescaled the box' if c['segments'][si].get('scale') else ''}, or the last accepted trial), trial state E'={t['E_new']:.6f}, V'={t['V_new']:.4f}, "
+                             f"N={t['natoms']}, P={c['P']}, T={c['T']}: A = {float(la.exp()) if la < 50 else 'huge'}, u = {t['u']}, verdict {t['verdict']}",
+                             {"input": c, "run": si, "trial": ti, "observed": t, "reference": {"E": float(E_ref), "V": float(V_ref)}})
+                    break
+                if t["verdict"]:
+                    E_ref, V_ref = E2, V2
     coq_cases, idx = [], []
     dist = {"criteria": {}, "verdicts": {"accept": 0, "reject": 0, "raised": 0}, "regime": {"A>=1": 0, "A<1": 0, "underflow": 0},
-            "rel_distance": {}, "extreme": 0, "warmed_up_with_other_settings": 0, "stress_mode": {}, "sheared_hydrostatic": 0, "inconclusive_guard_band": 0}
+            "rel_distance": {}, "driver_level": ndrv, "extreme": 0, "warmed_up_with_other_settings": 0, "stress_mode": {}, "sheared_hydrostatic": 0, "inconclusive_guard_band": 0}
     distinct = set()
     for k, (c, r) in enumerate(zip(cases, results)):
         dist["criteria"][c["crit"]] = dist["criteria"].get(c["crit"], 0) + 1
